@@ -47,9 +47,9 @@ def us_of(date, e):
 class World:
     """the objects one case works on: orbits (sharing ONE propagator object), or one Ephem; two listeners"""
 
-    def __init__(self, kind, h=60 * 8 * U, npts=12, elems=None, order=None):
+    def __init__(self, kind, h=60 * 8 * U, npts=12, elems=None, order=None, silent_listeners=False):
         from beyond.orbits import Orbit
-        from beyond.propagators.listeners import NodeListener, ApsideListener
+        from beyond.propagators.listeners import NodeListener, ApsideListener, Listener
         self.kind = kind
         self.h = h
         self.e = epoch()
@@ -57,6 +57,16 @@ class World:
         el2 = list(el)
         el2[5] += 0.7
         self.listeners = [NodeListener(), ApsideListener()]
+        if silent_listeners:
+            # a listener whose watched quantity never changes sign: `prev` is maintained, `_bisect` never runs
+            # (the model has no event search; the correspondence compares dates, binding and `prev` only)
+            class Silent(Listener):
+                def info(self, orb):
+                    return None
+
+                def __call__(self, orb):
+                    return 1.0
+            self.listeners = [Silent(), Silent()]
         self.eph = None
         if kind == "sgp4":
             from beyond.io.tle import Tle
@@ -64,7 +74,7 @@ class World:
             if us_of(a.date, self.e) != 0:
                 raise RuntimeError("TLE epoch is not the whole-second epoch the generator assumes")
             b = a.copy()
-            b[5] += 0.7
+            b[4] += 0.7          # TLE form: (i, Omega, e, omega, M, n)
             b.propagator = a.propagator
             self.orbits = [a, b]
         elif kind in ("kepler", "j2", "none", "num"):
@@ -180,31 +190,222 @@ def order_of_source():
     raise RuntimeError("Ephem.DEFAULT_ORDER not found in beyond/orbits/ephem.py")
 
 
+# ---------------------------------------------------------------- correspondence (model vs code)
+
+def enc_args(a):
+    def oo(k):
+        if k not in a:
+            return "-"
+        return "N" if a[k] is None else str(a[k])
+    if a.get("stop") is not None:
+        stop = f"a:{a['stop']}"
+    elif "stopdelta" in a:
+        stop = f"d:{a['stopdelta']}"
+    else:
+        stop = "-"
+    if "dates" in a:
+        dates = "L:" + ",".join(str(x) for x in a["dates"])
+    elif "range" in a:
+        dates = "R:" + ",".join(str(int(x)) for x in a["range"])
+    else:
+        dates = "-"
+    return f"start={oo('start')};stop={stop};step={oo('step')};dates={dates};strict={0 if a.get('strict') is False else 1}"
+
+
+def gen_args(rng, kind, h, npts):
+    """keyword combinations of iter, valid and invalid"""
+    a = {}
+    r = rng.random()
+    total = h * (npts - 1)
+    if r < 0.12:
+        n = rng.choice([0, 1, 2, 4])
+        lo, hi = (0, total // U) if kind == "ephem" and rng.random() < 0.8 else (-total // U, 2 * total // U)
+        a["dates"] = [rng.randrange(lo, hi + 1) * U for _ in range(n)]
+        return a
+    if r < 0.22:
+        s0 = rng.randrange(-3 * h // U, 6 * h // U) * U if kind != "ephem" else rng.randrange(0, total // U + 1) * U
+        st = rng.choice([h, h // 2, 3 * h // 4, 2 * h]) * rng.choice([1, 1, -1])
+        st -= st % U
+        k = rng.choice([0, 0, 1, 3, 7, 8, 12])
+        s1 = s0 + k * st + (rng.choice([0, 0, U, 3 * U]) if st > 0 else -rng.choice([0, 0, U, 3 * U]))
+        if kind == "ephem" and not (0 <= s1 <= total) and rng.random() < 0.8:
+            s1 = min(max(s1, 0), total)
+            if (s1 - s0 >= 0) != (st >= 0):
+                st = -st
+        if (s1 - s0 >= 0) != (st >= 0):
+            st = -st                     # a DateRange the caller can construct (signs coherent)
+        a["range"] = [s0, s1, st, rng.random() < 0.5]
+        return a
+    start, stop, step = gen_range(rng, kind, h, npts)
+    q = rng.random()
+    if q < 0.1:
+        step = -step
+    elif q < 0.14:
+        step = 0
+    sa = rng.random()
+    if kind == "ephem":
+        if sa < 0.8:
+            a["start"] = start
+        elif sa < 0.9:
+            a["start"] = None
+        if rng.random() < 0.15:
+            a["start"] = start - rng.randrange(1, 4 * h // U) * U
+            a["strict"] = rng.random() < 0.5
+    else:
+        if sa < 0.6 or start != 0:
+            a["start"] = start
+        elif sa < 0.75:
+            a["start"] = None
+    base = a.get("start") or 0
+    so = rng.random()
+    if so < 0.55:
+        a["stop"] = stop
+    elif so < 0.9:
+        a["stopdelta"] = stop - start
+    elif so < 0.95:
+        a["stop"] = None
+    if kind == "ephem" and rng.random() < 0.15 and "stop" in a and a["stop"] is not None:
+        a["stop"] = total + rng.randrange(1, 4 * h // U) * U
+        a["strict"] = rng.random() < 0.5
+    st = rng.random()
+    if st < (0.7 if kind in ("num", "ephem") else 0.92):
+        a["step"] = step
+    elif st < 0.8:
+        a["step"] = None
+    if step == 0 and kind in ("num", "ephem") and "step" in a:
+        pass      # never terminates in the code: both sides stop after CAP items
+    return a
+
+
+def real_iter_line(kind, h, npts, a, order):
+    w = World(kind, h=h, npts=npts)
+    got, fin, _ = w.run_iter(0, a, limit=CAP)
+    return ",".join(str(x) for x in got) + " " + fin
+
+
+def enc_call(c):
+    if c["op"] == "propagate":
+        return f"P/{c['orb']}/{c['date']}"
+    ls = c["args"].get("listeners") or []
+    return f"I/{c['orb']}/{c['consume']}/" + (".".join(str(x) for x in ls) if ls else "-") + "/" + enc_args(c["args"])
+
+
+def real_trace(kind, h, npts, calls):
+    import numpy as np
+    w = World(kind, h=h, npts=npts, silent_listeners=True)
+    seen = []           # every object the propagator was bound to (kept alive: identities stay unique)
+    outs = []
+
+    def observe():
+        if w.prop is None:
+            return "N", 0
+        o = w.prop.orbit
+        if o is None:
+            return "N", 0
+        if not seen or seen[-1] is not o:
+            seen.append(o)
+        for i, x in enumerate(w.orbits):
+            if o is x:
+                return str(i), len(seen)
+        for i, x in enumerate(w.orbits):
+            if np.array_equal(np.array(o), np.array(x.copy(form=o.form, frame=o.frame))):
+                return str(i), len(seen)
+        return "?", len(seen)
+
+    for c in calls:
+        if c["op"] == "propagate":
+            try:
+                r = w.orbits[c["orb"]].propagate(w.date(c["date"]))
+                run = f"{us_of(r.date, w.e)} done"
+            except Exception as ex:  # noqa: BLE001
+                run = " " + err_kind(ex)
+        else:
+            if c["consume"] == 0:
+                try:
+                    it = w.orbits[c["orb"]].iter(**w.kwargs(c["args"]))   # created, never started
+                    run = " fuel"
+                    del it
+                except Exception as ex:  # noqa: BLE001
+                    run = " " + err_kind(ex)
+            else:
+                got, fin, _ = w.run_iter(c["orb"], c["args"], limit=c["consume"])
+                run = ",".join(str(x) for x in got) + " " + fin
+        b, r = observe()
+        prev = ",".join("N" if L.prev is None else str(us_of(L.prev.date, w.e)) for L in w.listeners)
+        outs.append(f"{run} b{b} r{r} p{prev}")
+    return " | ".join(outs)
+
+
+def correspondence(ctx):
+    out = Outcome()
+    rng = ctx.rng
+    order = order_of_source()
+    cases = []
+    for kind in KINDS:
+        for _ in range(ctx.n(250, 6000)):
+            h = rng.choice([60, 60, 30, 10]) * 8 * U
+            npts = rng.choice([1, 3, 7, 8, 9, 12, 20]) if kind == "ephem" else 12
+            a = gen_args(rng, kind, h, npts)
+            cases.append(("iter", kind, h, npts, a, f"c08iter {kind} {CAP} {order} {h} {npts} {enc_args(a)}"))
+        for _ in range(ctx.n(60, 2500)):
+            h = 60 * 8 * U
+            npts = rng.choice([9, 12])
+            n_orb = 1 if kind == "ephem" else 2
+            calls = []
+            for _ in range(rng.randint(1, 8)):
+                if rng.random() < 0.25:
+                    c = {"op": "iter", "orb": rng.randrange(n_orb), "args": gen_args(rng, kind, h, npts), "consume": rng.choice([CAP, 0, 2])}
+                    c["args"]["listeners"] = rng.choice([[], [0], [1], [0, 1]])
+                else:
+                    c = gen_call(rng, kind, h, npts, n_orb)
+                calls.append(c)
+            cases.append(("hist", kind, h, npts, calls, f"c08hist {kind} {CAP} {order} {h} {npts} 2 " + " ".join(enc_call(c) for c in calls)))
+    model = core.Driver().run([c[5] for c in cases])
+    for (what, kind, h, npts, x, line), m in zip(cases, model):
+        if what == "iter":
+            real = real_iter_line(kind, h, npts, x, order)
+            end = real.split(" ")[-1]
+            out.count(key=line, nontrivial=real.count(",") >= 1, kind=f"iter-{kind}", end=end,
+                      args="dates" if "dates" in x else ("range" if "range" in x else "start-stop-step"))
+            fam = f"model-iter-{kind}"
+        else:
+            real = real_trace(kind, h, npts, x)
+            out.count(key=line, nontrivial=len(x) > 1, kind=f"history-{kind}", calls=len(x))
+            fam = f"model-history-{kind}"
+        if real != m:
+            out.fail(fam, "dates / error kind / binding trace differ between Model/Iter.lean and the code", {"line": line}, observed=real[:400], expected=m[:400])
+        out.sample({"line": line[:200], "reply": m[:160]}, limit=4)
+    return out
+
+
 # ---------------------------------------------------------------- oracle
 
+def internal_points(start, stop, h):
+    """number of states KeplerNum._iter tabulates for a forward range: start, start+h, ... until >= stop"""
+    return (max(0, stop - start) + h - 1) // h + 1
+
+
 def classify(kind, a, h, order, npts, got, fin, exp):
-    """family of a failing iteration, computed from the input and the observation"""
+    """family of a failing iteration, computed from the input (call site, direction, step given or not, span class)
+    and from the observation (symptom)"""
     start, stop = a["_start"], a["_stop"]
     direction = "fwd" if stop >= start else "bwd"
-    stepc = "step" if a.get("step") is not None else "nostep"
-    if kind == "num":
-        spanc = "short" if abs(stop - start) < (order - 1) * h else "long"
-    elif kind == "ephem":
-        spanc = "few-points" if npts < order else "enough-points"
-    else:
-        spanc = "any"
     if fin not in ("done", "fuel"):
         sym = "raises-" + fin
     elif fin == "fuel":
         sym = "does-not-terminate"
     elif got[:len(exp)] == exp and len(got) > len(exp):
         extra = got[len(exp):]
-        sym = "beyond-stop" if all((x > stop) == (direction == "fwd") and x != stop for x in extra) else "extra-dates"
+        sym = "beyond-stop" if all((x > stop) if direction == "fwd" else (x < stop) for x in extra) else "extra-dates"
     elif exp[:len(got)] == got:
         sym = "yields-nothing" if not got else "stops-early"
     else:
         sym = "wrong-dates"
-    return f"{kind}-iter-{direction}-{stepc}-{spanc}-{sym}"
+    if kind == "num" and direction == "fwd" and sym.startswith("raises"):
+        stepc = "step" if a.get("step") is not None else "nostep"
+        spanc = "short" if internal_points(start, stop, h) < order else "long"
+        return f"num-iter-fwd-{stepc}-{spanc}-{sym}"
+    return f"{kind}-iter-{direction}-{sym}"
 
 
 def gen_range(rng, kind, h, npts):
@@ -227,6 +428,8 @@ def gen_range(rng, kind, h, npts):
     else:
         start = rng.choice([0, 0, 1, -1]) * rng.randrange(1, 4000 * 8) * U
         span = rng.choice([-1, 1]) * (nsteps * step + rng.choice([0, 0, U, step // 2 - step // 2 % U, step - U]))
+    while abs(span) // step >= CAP - 50:
+        step *= 2
     stop = start + span
     if rng.random() < 0.25 and span < 0:
         step = -step
@@ -249,6 +452,12 @@ def check_iter(out, w, a, order, npts, states=True):
               divides="divides" if (stop - start) % abs(step) == 0 else "off-grid", start="at-epoch" if start == 0 else ("after" if start > 0 else "before"))
     pub = {k: v for k, v in a.items() if not k.startswith("_")}
     inp = {"check": "iter", "kind": kind, "h": w.h, "npts": npts, "args": pub}
+    if kind == "ephem" and npts < order and a.get("step") is not None and stop >= start:
+        # documented: Ephem.interpolate raises ValueError when the order of interpolation is insufficient
+        if (got, fin) != ([], "value-error"):
+            out.fail("ephem-iter-few-points-not-refused", "Ephem with fewer points than the interpolation order: resampling did not raise ValueError",
+                     inp, observed={"dates": got[:40], "end": fin}, expected={"dates": [], "end": "value-error"})
+        return
     if fin != "done" or got != exp:
         out.fail(classify(kind, a, w.h, order, npts, got, fin, exp),
                  f"{kind}: iter(start, stop, step) does not yield exactly start + k*step up to stop ({direction})",
@@ -344,12 +553,17 @@ def check_dates_list(out, w, dates, npts, order):
     a = {"dates": dates}
     got, fin, _ = w.run_iter(0, a)
     out.count(key=(w.kind, tuple(dates)), nontrivial=len(dates) > 1, kind="dates-" + w.kind, n=min(len(dates), 5))
+    if w.kind == "ephem" and npts < order and dates:
+        if (got, fin) != ([], "value-error"):
+            out.fail("ephem-iter-few-points-not-refused", "Ephem with fewer points than the interpolation order: interpolation did not raise ValueError",
+                     {"check": "dates", "kind": w.kind, "h": w.h, "npts": npts, "dates": dates}, observed={"dates": got[:40], "end": fin})
+        return
     if fin != "done" or got != dates:
         sym = ("raises-" + fin) if fin not in ("done", "fuel") else ("extra-dates" if len(got) > len(dates) else "wrong-dates")
         cls = "empty" if not dates else "nonempty"
-        if w.kind == "ephem" and npts < order:
-            cls += "-few-points"
-        out.fail(f"{w.kind}-iter-dates-list-{cls}-{sym}", f"{w.kind}: iter(dates=[...]) does not yield exactly the listed dates",
+        site = "analytical" if (w.kind in ANALYTICAL and not dates) else w.kind     # AnalyticalPropagator._iter is one call site
+        fam = "num-iter-dates-list-raises-attribute-error" if (w.kind == "num" and sym == "raises-attribute-error") else f"{site}-iter-dates-list-{cls}-{sym}"
+        out.fail(fam, f"{w.kind}: iter(dates=[...]) does not yield exactly the listed dates",
                  {"check": "dates", "kind": w.kind, "h": w.h, "npts": npts, "dates": dates}, observed={"dates": got[:40], "end": fin}, expected={"dates": dates[:40], "end": "done"})
 
 
@@ -358,7 +572,7 @@ def oracle(ctx, widened):
     rng = ctx.rng
     big = widened or ctx.thorough
     order = order_of_source()
-    n_iter = 400 if big else 40
+    n_iter = 1200 if big else 120
     for kind in KINDS:
         for i in range(n_iter):
             h = rng.choice([60, 60, 30, 10]) * 8 * U
@@ -388,7 +602,7 @@ def oracle(ctx, widened):
                 ds = [rng.randrange(-hi, hi + 1) * U for _ in range(n)]
             check_dates_list(out, w, ds, npts, order)
         # call histories on shared objects
-        for i in range((300 if big else 30)):
+        for i in range((600 if big else 60)):
             h = 60 * 8 * U
             npts = rng.choice([9, 12])
             n_orb = 1 if kind == "ephem" else 2
